@@ -152,6 +152,8 @@ type linkSource struct {
 	off    int
 	cutter func(remaining int) int
 	cuts   *[]int
+	// withErr: the chunk that reaches the end of the stream is handed over together with the end-of-stream error
+	withErr bool
 }
 
 func (s *linkSource) Next() ([]byte, error) {
@@ -173,6 +175,14 @@ func (s *linkSource) Next() ([]byte, error) {
 	s.off += n
 	if s.cuts != nil {
 		*s.cuts = append(*s.cuts, s.off)
+	}
+	if s.withErr && s.off >= limit {
+		err := error(io.EOF)
+		if s.plan.failAt >= 0 {
+			err = s.plan.failErr
+		}
+		s.r.Event("link: the stream ends with that chunk (%s)", errName(err))
+		return append([]byte(nil), chunk...), err
 	}
 	return append([]byte(nil), chunk...), nil
 }
@@ -500,6 +510,12 @@ func runFraming(r *core.Run) {
 			}
 			return k
 		}
+	}
+	if !exhaustive && c.Prob(1, 3) {
+		// the read that hands over the last octets before the stream ends or fails reports the error with them
+		conn.DataErr = true
+		src.withErr = true
+		conn.OnDataErr = func() { r.Fault("data_with_error") }
 	}
 	limit := total
 	if plan.failAt >= 0 && plan.failAt < limit {
